@@ -61,6 +61,7 @@ type Script struct {
 	Queue         int    `json:"queue"`           // pipeline: MaxConcurrentQueryWhileDialing
 	DialTimeoutMs int    `json:"dial_timeout_ms"` // reuse: DialTimeout (real time)
 	NoPostCall    bool   `json:"no_post_call"`    // do not start the extra call after transport Close
+	StepWaitMs    int    `json:"step_wait_ms"`    // override of the wait for a scripted boundary event
 	ErrHow        string `json:"err_how"`         // reuse: how read errors are injected: eof | reset | short (default by index)
 }
 
@@ -337,12 +338,16 @@ func main() {
 	}
 	bad := 0
 	for i, sc := range job.Scripts {
-		if bad >= job.MaxBad && bad*4 > i {
+		if bad >= job.MaxBad && bad*5 > i*2 {
 			vh.Emit(Result{Idx: i, Name: sc.Name, Skipped: true})
 			continue
 		}
 		t0 := time.Now()
 		setBaseline()
+		stepWait = 1500 * time.Millisecond
+		if sc.StepWaitMs > 0 {
+			stepWait = time.Duration(sc.StepWaitMs) * time.Millisecond
+		}
 		var res Result
 		func() {
 			defer func() {
